@@ -667,6 +667,11 @@ def _seg_eq(a, b):
         # the collision-freedom assumption on H the other way); the texts are structured, the digests are not
         ta, tb = sa[0][3][0], sb[0][3][0]
         return (ta == tb) if isinstance(ta, Sym) else ((tb == ta) if isinstance(tb, Sym) else ta == tb)
+    if len(sa) == 1 and len(sb) == 1 and sa[0][0] == 'atom' and sb[0][0] == 'atom':
+        ta, tb = sa[0][1], sb[0][1]
+        if z3.is_app(ta) and z3.is_app(tb) and ta.decl().name() == 'I2S' and tb.decl().name() == 'I2S':
+            # decimal rendering is injective: str(i) == str(j) iff i == j
+            return mkbool(ta.arg(0) == tb.arg(0))
     if len(sa) == len(sb) and all(x[0] == y[0] and (x[1] == y[1] if x[0] == 'lit' else x[1].eq(y[1])) for x, y in
                                   zip(sa, sb)):
         return True
